@@ -379,7 +379,7 @@ static unsigned ref_expect (int code, unsigned long nops, const ref_op_t *ops, c
     /* "the second operand is a called function address": an integer value; a reference must denote something callable */
     e |= ref_pos_rules (&ops[1], REF_IN (RV_INT), 1);
     if (ops[1].kind == RK_REF && ops[1].item == RR_PROTO) e |= RE_CALL;
-    if (ops[1].kind == RK_MEM && ref_block_type_p (ops[1].mem_type)) e |= RE_MEMTYPE;
+    if (ops[1].kind == RK_MEM && ref_block_type_p (ops[1].mem_type)) e |= RE_CALL; /* block data is not a function address */
     for (i = 2; i < nops; i++) {
       const ref_op_t *o = &ops[i];
       if (i - 2 < (unsigned long) pr->nres) { /* results */
